@@ -146,3 +146,36 @@ const c03Rule = "rapid-generated cooperative scripts: request metadata (NewOutgo
 func TestC03(t *testing.T) {
 	runProp(t, "C03", c03Rule, genC03, propC03)
 }
+
+// TestC03Race exercises the clause "a call that reports success has delivered all of them"
+// under cancellation races: the hooked in-process unary placements (shared with C04) are run
+// and every call that returned nil must have delivered the headers and trailers.
+func TestC03Race(t *testing.T) {
+	gen := func(t *rapid.T) c04Case {
+		c := c04Case{Carrier: cInproc, Kind: kUnary, Mode: rapid.SampledFrom([]string{"cancel", "deadline"}).Draw(t, "mode"),
+			Attitude: rapid.SampledFrom([]string{"ignore", "return-ctx-err"}).Draw(t, "attitude"), NReq: 1, NResp: 1,
+			Final: rapid.SampledFrom([]uint32{0, 0, 0, 9}).Draw(t, "final")}
+		ps := c04Points(cInproc, kUnary, 1, 1, c.Attitude)
+		c.Point = rapid.SampledFrom(ps[3:]).Draw(t, "point") // the schedule-point placements
+		c.Reps = rapid.IntRange(4, 12).Draw(t, "reps")
+		return c
+	}
+	prop := func(c c04Case) *Outcome {
+		o := propC04(c)
+		o.Classes = append([]string{"race-clause/" + c.Point}, o.Classes...)
+		return o
+	}
+	checks := envInt("VERIF_C03_RACE_CHECKS", 150)
+	rec("C03").rule = c03Rule + "; plus the cancellation-race clause: in-process unary calls with the instant at the verif schedule points, repeated 4..12 times, success => headers and trailers delivered"
+	for i := 0; i < checks; i++ {
+		var c c04Case
+		// drawn through rapid so that the case is a pure function of the seed
+		c = rapid.Custom(gen).Example(i + envInt("VERIF_SEED_EFFECTIVE", 1)%1000000)
+		o := runCase("C03", struct {
+			Race c04Case
+		}{c}, func(x struct{ Race c04Case }) *Outcome { return prop(x.Race) })
+		if o.Fail != "" {
+			t.Fatalf("C03: %s", o.Fail)
+		}
+	}
+}
